@@ -127,6 +127,26 @@ def check_tokens(case):
     return {"v": out, "nt": True, "cnt": {"texts_parsed": n}}
 
 
+def check_texts(case):
+    """Character-level damage (unclosed literals, cut-off text): the parser must terminate (return or raise)."""
+    Item = c14.item_mod()  # noqa: N806
+    out = []
+    n = 0
+    for text in case["batch"]:
+        n += 1
+        try:
+            guarded(Item.from_sml, text)
+        except Watchdog:
+            _, open_literal = refsml.tokenize(text)
+            out.append((f"C15|parser-does-not-terminate|{'unclosed-literal' if open_literal else 'text'}",
+                        {"case": {"kind": "texts", "batch": [text]}, "sml": text}))
+            if len(out) >= 2:
+                break
+        except Exception:  # noqa: BLE001
+            pass
+    return {"v": out, "nt": True, "cnt": {"texts_parsed": n}}
+
+
 def valid_texts():
     Item = c14.item_mod()  # noqa: N806,F841
     descs = [
@@ -159,6 +179,8 @@ def mutations(tokens):
 def check_case(case):
     if case["kind"] == "rt":
         return check_roundtrip(case)
+    if case["kind"] == "texts":
+        return check_texts(case)
     return check_tokens(case)
 
 
@@ -212,6 +234,18 @@ def cases(ctx):
             batch.append(m)
     for i in range(0, len(batch), 1000):
         yield {"kind": "tokens", "batch": batch[i:i + 1000]}
+    # (4) character-level damage of the same texts: every single-character deletion, every proper prefix, every single quote inserted
+    texts = set()
+    for toks in valid_texts():
+        text = " ".join(toks)
+        for i in range(len(text)):
+            texts.add(text[:i] + text[i + 1:])
+            texts.add(text[:i])
+            for q in "\"'":
+                texts.add(text[:i] + q + text[i:])
+    texts = sorted(texts)
+    for i in range(0, len(texts), 50):
+        yield {"kind": "texts", "batch": texts[i:i + 50]}
 
 
 def run(ctx):
@@ -223,7 +257,8 @@ def run(ctx):
     ]
     ctx.setcov("rule", "items of the C14 families + every byte and every string up to length 3/4 over an 18-character awkward alphabet "
                        "for A and J + list trees; every token string up to length 5/6 over a 12-token alphabet; every single-token "
-                       "deletion/insertion/replacement of 11 valid texts; non-trivial = every case (each is a distinct text)")
+                       "deletion/insertion/replacement of 11 valid texts; every single-character deletion, quote insertion and proper prefix of them "
+                       "(termination only); non-trivial = every case (each is a distinct text)")
     ctx.run_cases(check_case, cases(ctx), "c15", chunk=16)
 
 
